@@ -328,4 +328,43 @@ theorem repeated_arg_counterexample :
 
 example : defOK "c" tBBB repeatedArgProp = false := by decide
 
+/-! ### type variables are never apart -/
+
+def tAB : Ty := Ty.fn tA (Ty.fn tB Ty.bool)
+def tBA : Ty := Ty.fn tB (Ty.fn tA Ty.bool)
+
+/-- `c (x::'a) (y::'b) ⟷ ¬ (c :: 'b ⇒ 'a ⇒ bool) y x` (negation written `_ ⟶ ∀p. p`) -/
+def permProp : Term :=
+  eqAt Ty.bool (.comb (.comb (.const "c" tAB) (.var "x" tA)) (.var "y" tB))
+    (Term.mkImplies (.comb (.comb (.const "c" tBA) (.var "y" tB)) (.var "x" tA)) falseT)
+
+/-- its instance at `'a := bool, 'b := bool` -/
+def permInst : Term :=
+  eqAt Ty.bool (.comb (.comb (.const "c" tBBB) (.var "x" Ty.bool)) (.var "y" Ty.bool))
+    (Term.mkImplies (.comb (.comb (.const "c" tBBB) (.var "y" Ty.bool)) (.var "x" Ty.bool)) falseT)
+
+example : instTerm (fun _ => Ty.bool) permProp = permInst := by
+  simp [permProp, permInst, eqAt, instTerm, instTy_fn, instTy_bool, Term.mkImplies, falseT, tAB, tBA,
+    tA, tB, tBBB, instTy]
+
+/-- (4, types) Two differently named type variables have a common instance, so `is_apart` must
+not call them apart: the occurrence of `c` at the permuted type `'b ⇒ 'a ⇒ bool` meets the
+constant being defined at the instance `'a := 'b := bool`, where the equation reads
+`c x y ⟷ ¬ c y x` and has no interpretation (take `x = y`). `Definition.parse` rejects the
+definition (constant occurs in rhs). -/
+theorem permuted_selfref_counterexample : ¬ Conservative "c" tBBB permInst := by
+  intro h
+  obtain ⟨c, hc, hs⟩ := h oneModel ρ0 ρ0_adm
+  have hc16 : c < 16 := by
+    have : oneModel.size tBBB = 16 := by decide
+    omega
+  have := (sat_nil_iff _ _ _).1 hs (ρ0.update 2 "c" tBBB c) (ρ0_adm.update 2 "c" tBBB c hc)
+    (fun _ _ => rfl)
+  have hall : ∀ c, c < 16 → ¬ sem oneModel (ρ0.update 2 "c" tBBB c) [] [] permInst = 1 := by decide
+  exact hall c hc16 this
+
+example : apart tAB tBA = false := by decide
+example : apart tA tB = false := by decide
+example : defOK "c" tAB permProp = false := by decide
+
 end Holpy.C11
